@@ -300,7 +300,7 @@ def case_round(ctx, cfg):
     half = [k / 2 for k in range(-12, 13)]
     if kind == "circle":
         for r in RADII:
-            for w in (1, -2):
+            for w in (1, -2, -1):
                 center = G.Point(np.array([w * c[0], w * c[1], w], dtype=float))
                 ci, e = ctx.call(G.Circle, center, r)
                 ctx.trace()
@@ -346,10 +346,11 @@ def case_round(ctx, cfg):
                         ctx.fail(f"circle:derived-after-queries:{how}", "center / radius / foci", inputs, [c[0] + 3, c[1] - 1, 1], e or e2 or e3 or [ce2.array, r2])
                         return
     elif kind == "ellipse":
-        for a, b in itertools.product(RADII, repeat=2):
-            el, e = ctx.call(G.Ellipse, G.Point(*c), a, b)
+        for (a, b), w in itertools.product(itertools.product(RADII, repeat=2), (1, -1, 3)):
+            # the centre in several homogeneous representatives
+            el, e = ctx.call(G.Ellipse, G.Point(np.array([w * c[0], w * c[1], w], dtype=float)), a, b)
             ctx.trace()
-            inputs = {"center": c, "hradius": a, "vradius": b}
+            inputs = {"center": c, "center_weight": w, "hradius": a, "vradius": b}
             # (x-cx)^2/a^2 + (y-cy)^2/b^2 = 1  ->  b^2 (x-cx)^2 + a^2 (y-cy)^2 - a^2 b^2 = 0
             A2, B2 = a * a, b * b
             want = np.array([[B2, 0, -B2 * c[0]], [0, A2, -A2 * c[1]], [-B2 * c[0], -A2 * c[1], B2 * c[0] ** 2 + A2 * c[1] ** 2 - A2 * B2]], dtype=float)
@@ -376,10 +377,10 @@ def case_round(ctx, cfg):
     elif kind in ("sphere", "sphere2d"):
         n = len(c)
         for r in RADII:
-            for dt in (float, np.int64):
-                sp, e = ctx.call(G.Sphere, G.Point(np.array(list(c) + [1], dtype=dt)), r)
+            for dt, w in ((float, 1), (np.int64, 1), (float, -1), (np.int64, -1), (float, -3)):
+                sp, e = ctx.call(G.Sphere, G.Point(np.array([w * x for x in c] + [w], dtype=dt)), r)
                 ctx.trace()
-                inputs = {"center": c, "radius": r, "center_dtype": np.dtype(dt).name}
+                inputs = {"center": c, "center_weight": w, "radius": r, "center_dtype": np.dtype(dt).name}
                 want = np.eye(n + 1)
                 want[-1, :-1] = want[:-1, -1] = [-x for x in c]
                 want[-1, -1] = sum(x * x for x in c) - r * r
@@ -477,9 +478,10 @@ def case_cone(ctx, cfg):
         if kind == "cone":
             for s in (1, 2):
                 bc = tuple(a + s * b for a, b in zip(v, d))
-                q, e = ctx.call(G.Cone, G.Point(*v), G.Point(*bc), r)
+                wv = (1, -1, 2)[(r + s) % 3]  # vertex and base centre in other homogeneous representatives as well
+                q, e = ctx.call(G.Cone, G.Point(np.array([wv * x for x in v] + [wv], dtype=float)), G.Point(np.array([-x for x in bc] + [-1], dtype=float)) if wv != 1 else G.Point(*bc), r)
                 ctx.trace()
-                inputs = {"vertex": v, "base_center": bc, "radius": r}
+                inputs = {"vertex": v, "base_center": bc, "radius": r, "vertex_weight": wv, "base_center_weight": -1 if wv != 1 else 1}
                 want = cone_matrix(v, d, r, s)
                 if e is not None or not proj_eq(q.array, want, 1e-8):
                     ctx.fail(f"cone:matrix:{type(e).__name__ if e is not None else 'value'}", "Cone", inputs, want, e if e is not None else q.array)
@@ -496,9 +498,10 @@ def case_cone(ctx, cfg):
                     ctx.fail("cone:contains", "contains", inputs, [True, True, False], e1 or e2 or e3 or [bool(onv), bool(onb), bool(offc)])
                     return
         else:
-            q, e = ctx.call(G.Cylinder, G.Point(*v), G.Point(*d), r)
+            wv = (1, -1)[r % 2]
+            q, e = ctx.call(G.Cylinder, G.Point(np.array([wv * x for x in v] + [wv], dtype=float)), G.Point(*d), r)
             ctx.trace()
-            inputs = {"center": v, "direction": d, "radius": r}
+            inputs = {"center": v, "center_weight": wv, "direction": d, "radius": r}
             want = cylinder_matrix(v, d, r)
             if e is not None or not proj_eq(q.array, want, 1e-8):
                 ctx.fail(f"cylinder:matrix:{type(e).__name__ if e is not None else 'value'}", "Cylinder", inputs, want, e if e is not None else q.array)
